@@ -36,7 +36,7 @@ type Op struct {
 	Pfx   string `json:"pfx"`           // management prefix used in the name
 	Mod   string `json:"m"`             // module component
 	Verb  string `json:"v"`             // verb component
-	Form  string `json:"form"`          // signed | plain | noparam | garbage | empty | wrongtlv | trunc | ds | dsx
+	Form  string `json:"form"`          // signed | plain | noparam | garbage | empty | wrongtlv | trunc | ds | dsx | announce
 	P     P      `json:"p"`             // parameters (forms signed, plain, wrongtlv, trunc)
 	Raw   []byte `json:"raw,omitempty"` // parameter component (form garbage)
 	Lp    bool   `json:"lp,omitempty"`  // sent inside an LpPacket carrying a PIT token
@@ -123,6 +123,17 @@ var garbage = [][]byte{
 	{0x68, 0x04, 0x69, 0x09, 0x01, 0x02}, // FaceId with an impossible length
 	{0x68, 0x03, 0x69, 0x03, 0x01},       // truncated natural number
 	{0x68, 0x04, 0x6b, 0x02, 0x07, 0x09}, // Strategy whose Name overruns
+}
+
+// application parameters of rib/announce Interests: a Data packet, pieces of one, garbage
+var announcements = [][]byte{
+	{0x06, 0x1d, 0x07, 0x08, 0x08, 0x01, 'r', 0x08, 0x03, 'P', 'A', 0x00, 0x14, 0x03, 0x18, 0x01, 0x05, 0x15, 0x00, 0x16, 0x03, 0x1b, 0x01, 0x00, 0x17, 0x04, 1, 2, 3, 4, 0x00},
+	{0x06, 0x1d, 0x07, 0x08, 0x08, 0x01, 'r'},
+	{0x06, 0x00},
+	{0x06, 0xfd, 0xff},
+	{0x05, 0x03, 0x07, 0x01, 0x08},
+	{0xff, 0xff, 0xff},
+	{0x00},
 }
 
 // ---------------------------------------------------------------------------- generator
@@ -371,6 +382,12 @@ func (g *genState) genOp() Op {
 		op.Mod, op.Verb = mv[0], mv[1]
 		op.P.Name = sp(pick(t, "name", ribNames))
 		op.P.Fid = g.fid("fid", true)
+		if pct(t, "announce", 25) {
+			// rib/announce as NFD defines it: the prefix announcement (a Data) travels as
+			// application parameters; YaNFD does not implement it but must survive it
+			op.Mod, op.Verb, op.Form, op.P = "rib", "announce", "announce", P{}
+			op.Raw = pick(t, "annraw", announcements)
+		}
 	case "query":
 		op.Mod, op.Verb = "faces", "query"
 		op.Form = "garbage"
@@ -401,7 +418,7 @@ func (g *genState) genOp() Op {
 	}
 
 	// form of the parameters
-	if op.Form == "signed" {
+	if op.Form == "signed" && !(op.Mod == "rib" && op.Verb == "announce") {
 		op.Form = weighted(t, "form", []string{"signed", "plain", "noparam", "garbage", "empty", "wrongtlv", "trunc"},
 			[]int{62, 20, 5, 5, 2, 3, 3})
 		if op.Form == "garbage" {
